@@ -2,9 +2,11 @@
 CONTRACT_MODULES = ['c02_outputs', 'c15_iterations']
 LEVEL = 'other'
 TRUSTED = ['pyvc', 'z3 5.1.0 / cvc5 1.0.3', 'ENGINE-SPEC: weighted sum over observations, thread- and order-independent (assumed; sampled)']
-ASSUMPTIONS = ['A-REAL', 'concurrency inside the compiled engine is outside this family: assumed, sampled by the bounded harness']
+ASSUMPTIONS = ['A-REAL', 'concurrency inside the compiled engine is outside this family: assumed, sampled by the bounded harness',
+               'assumed contract (verify=False) Database.build_panel_map: afterwards the individual map is panel.map_of(data, panel column) (uninterpreted; what the map is belongs to C09)',
+               'assumed contract (verify=False) Database.get_sample_size: a function of the database object (C09)']
 EXPLANATION = ('Proved: calculate_likelihood returns the engine value divided by the sample size iff scaled, refuses wrong vector lengths, and hands the '
-               'engine the free vector and the fixed-parameter vector of the id manager.  The summation itself and its independence of threads, row '
+               'engine the free vector and the fixed-parameter vector of the id manager; an empty sample is refused with BiogemeError (no implicit ZeroDivisionError: safe:div is an obligation, check_safe=False removed in round 3); for panel data the individual map is rebuilt from the data the database holds now (Database.is_panel proved from its body).  Static: every local of the two entry points is bound before it is read, including the reads inside dropped logger calls (contracts/m1_static.py); bounded: every flag combination of the two entry points returns / raises what the contract says (bounded/m1_entrypoints.py).  The summation itself and its independence of threads, row '
                'order and partition are properties of the compiled multi-threaded engine: assumed, sampled by the bounded harness.')
 LEVEL_TEXT = 'Scaling and hand-over proved deductively; summation/thread/order independence assumed (external engine) with a bounded stand-in.'
 LEVEL_NOTE = 'Trusted: pyvc, z3/cvc5, ENGINE-SPEC.'
